@@ -219,3 +219,57 @@ func verifC09MemFresh()  { n := verifChoose(4); VerifC09Fresh(NewMemDisk(uint64(
 func verifC09MemStep()   { n := verifChoose(4); VerifC09Step(NewMemDisk(uint64(n)), n, false) }
 func verifC09MemGlobal() { n := 1 + verifChoose(2); VerifC09Step(NewMemDisk(uint64(n)), n, true) }
 func verifC09MemTwo()    { n := 1 + verifChoose(3); VerifC09Two(NewMemDisk(uint64(n)), n) }
+
+// VerifC09GlobalHistory: the package-level wrappers are a pointer to "the installed disk" and nothing
+// else. Two disks of different sizes, k arbitrary steps from {Init(d1), Init(d2), Size, Read, Write,
+// Barrier} through the wrappers only; after every step the wrappers must behave exactly like the
+// currently installed disk and the other disk must be untouched. Catches state kept beside
+// implicitDisk (cached sizes, remembered buffers, a stale disk).
+func VerifC09GlobalHistory(d1, d2 Disk, n1, n2, k int) {
+	ds := [2]Disk{d1, d2}
+	ns := [2]int{n1, n2}
+	var models [2][][]byte
+	for j := 0; j < 2; j++ {
+		models[j] = make([][]byte, ns[j])
+		for i := range models[j] {
+			models[j][i] = make([]byte, BlockSize)
+		}
+	}
+	cur := verifChoose(2)
+	Init(ds[cur])
+	for s := 0; s < k; s++ {
+		switch verifChoose(6) {
+		case 0:
+			cur = 0
+			Init(d1)
+		case 1:
+			cur = 1
+			Init(d2)
+		case 2:
+			verifAssert("global/size-of-installed-disk", Size() == uint64(ns[cur]))
+		case 3:
+			a := uint64(verifChoose(ns[cur]))
+			verifAssert("global/read-installed-disk", verifBytesEq(Read(a), models[cur][a]))
+		case 4:
+			// the highest address of the installed disk is the one a stale size gets wrong
+			a := uint64(ns[cur] - 1 - verifChoose(2))
+			v := verifNondetBytes("v", int(BlockSize))
+			models[cur][a] = verifClone(v)
+			panicked := verifTry(func() { Write(a, v) })
+			verifAssert("global/write-in-range-accepted", !panicked)
+		case 5:
+			Barrier()
+		}
+		verifAssert("global/get", Get().Size() == ds[cur].Size())
+	}
+	verifAssert("global/size-after", Size() == uint64(ns[cur]))
+	// one past the end of the installed disk is refused whatever was installed before
+	verifAssert("global/oob-refused", verifTry(func() { Read(uint64(ns[cur])) }))
+	verifFrame(d1, n1, models[0], "global/frame-first-disk")
+	verifFrame(d2, n2, models[1], "global/frame-second-disk")
+	verifCover("c09/global-history")
+}
+
+func verifC09MemGlobalHistory() {
+	VerifC09GlobalHistory(NewMemDisk(3), NewMemDisk(2), 3, 2, 3+verifTier())
+}
